@@ -42,3 +42,45 @@ Proof.
     (destruct inner; [apply Lemmas.DeclLemmas.construct_never_panics | discriminate]).
 Qed.
 Print Assumptions C06_no_panic.
+
+(* ---- integer newtypes, on the text itself: the inner parser is core's decimal parser
+   (Sem/Text.parse_int, compared with the real `from_str` on every run) ---- *)
+From NV Require Import Base.IntTy Sem.Text Lemmas.TextLemmas.
+
+Theorem C06_int_text_parse_err_iff :
+  forall (lib : fnlib) (d : decl) (tn : string) (t : int_ty) (s : list N),
+    d_family d = FInt tn t -> has_trait TrFromStr (d_traits d) = true ->
+    (op_from_str_text lib d s = OParseErr <-> parse_int t s = None).
+Proof. exact from_str_text_parse_err_iff. Qed.
+Print Assumptions C06_int_text_parse_err_iff.
+
+Theorem C06_int_text_is_constructor :
+  forall (lib : fnlib) (d : decl) (tn : string) (t : int_ty) (s : list N) (z : Z),
+    d_family d = FInt tn t -> has_trait TrFromStr (d_traits d) = true -> parse_int t s = Some z ->
+    op_from_str_text lib d s = construct lib d (VI z) /\ in_ty t z = true.
+Proof. exact from_str_text_is_constructor. Qed.
+Print Assumptions C06_int_text_is_constructor.
+
+(* what the inner parser accepts: an optional sign (`-` for signed types only), then at least
+   one ASCII digit and nothing else; the value is inside the type (no wrap on overflow) *)
+Theorem C06_parse_int_shape :
+  forall (t : int_ty) (s : list N) (z : Z),
+    parse_int t s = Some z ->
+    exists sign ds, s = (sign ++ ds)%list /\ ds <> [] /\
+                    (sign = [] \/ sign = [43%N] \/ (sign = [45%N] /\ signed t = true)) /\
+                    Forall (fun c => (48 <=? c)%N && (c <=? 57)%N = true) ds.
+Proof. exact parse_int_shape. Qed.
+Theorem C06_parse_int_in_type :
+  forall (t : int_ty) (s : list N) (z : Z), parse_int t s = Some z -> in_ty t z = true.
+Proof. exact parse_int_sound. Qed.
+Print Assumptions C06_parse_int_shape.
+
+(* "-128" / "128" / "+5" / "-0" / "" / "+" / "--1" / "٣" (U+0663) / "1 " on i8 and u8 *)
+Example C06_parse_int_examples :
+  let i8 := {| signed := true; bits := 8 |} in let u8 := {| signed := false; bits := 8 |} in
+  parse_int i8 [45; 49; 50; 56]%N = Some (-128)%Z /\ parse_int i8 [49; 50; 56]%N = None /\
+  parse_int u8 [43; 53]%N = Some 5%Z /\ parse_int u8 [45; 48]%N = None /\ parse_int i8 [45; 48]%N = Some 0%Z /\
+  parse_int i8 []%N = None /\ parse_int i8 [43]%N = None /\ parse_int i8 [45; 45; 49]%N = None /\
+  parse_int u8 [1635]%N = None /\ parse_int u8 [49; 32]%N = None /\ parse_int u8 [48; 48; 55]%N = Some 7%Z /\
+  parse_int u8 [50; 53; 54]%N = None /\ parse_int i8 [43; 45; 53]%N = None.
+Proof. vm_compute. repeat split; reflexivity. Qed.
